@@ -72,19 +72,51 @@ def _check_routine(ctx, rep, f: Func, level: str):
         return
     loop = loops[0]
     # ---- K1 : the mode branch
-    modeif = [s for s in loop.body if isinstance(s, ast.If) and "mode_proj_order" in unparse(s.test)]
-    if len(modeif) != 1 or not modeif[0].orelse:
-        rep.undecided("K1", f, "mode branch", "expected one if/else on mode_proj_order in the loop body")
+    # the sweep: the run of loop-body statements from the first one that depends on the projection order (or assigns y_next) to the
+    # last one that assigns one of y', p', x', q'.  It is specialised once per order: every `if` on mode_proj_order (spelt directly
+    # or through a local that holds the comparison) is replaced by the branch taken.
+    FOUR = ("y_next", "p_next", "x_next", "q_next")
+    mode_locals = {}
+    for st in body_wo_doc(f.node) + list(loop.body):
+        if isinstance(st, ast.Assign) and len(st.targets) == 1 and isinstance(st.targets[0], ast.Name) and "mode_proj_order" in unparse(st.value) \
+                and isinstance(st.value, ast.Compare):
+            mode_locals[st.targets[0].id] = st.value
+
+    def mode_test(t, mode):
+        """truth of a test under self.mode_proj_order == mode; None if it is not a test on the order"""
+        if isinstance(t, ast.UnaryOp) and isinstance(t.op, ast.Not):
+            v = mode_test(t.operand, mode)
+            return None if v is None else not v
+        if isinstance(t, ast.Name) and t.id in mode_locals:
+            return mode_test(mode_locals[t.id], mode)
+        if isinstance(t, ast.Compare) and len(t.ops) == 1 and "mode_proj_order" in unparse(t.left) and isinstance(t.ops[0], (ast.Eq, ast.NotEq)):
+            lit_ = const(t.comparators[0])
+            if lit_ in ("eq_ineq", "ineq_eq"):
+                return (lit_ == mode) == isinstance(t.ops[0], ast.Eq)
+        return None
+
+    def is_mode_if(s_):
+        return isinstance(s_, ast.If) and mode_test(s_.test, "eq_ineq") is not None
+
+    def assigns_four(s_):
+        return any(isinstance(n, ast.Name) and isinstance(n.ctx, ast.Store) and n.id in FOUR for n in ast.walk(s_))
+    idx = [i for i, s_ in enumerate(loop.body) if is_mode_if(s_) or (isinstance(s_, ast.Assign) and assigns_four(s_))]
+    modeif = [s_ for s_ in loop.body if is_mode_if(s_)]
+    if not modeif or any(not s_.orelse for s_ in modeif):
+        rep.undecided("K1", f, "mode branch", "expected an if/else on mode_proj_order in the loop body")
         return
     mi = modeif[0]
-    t = mi.test
-    lit = None
-    if isinstance(t, ast.Compare) and len(t.ops) == 1 and isinstance(t.ops[0], ast.Eq):
-        lit = const(t.comparators[0])
-    if lit not in ("eq_ineq", "ineq_eq"):
-        rep.undecided("K1", f, mi.test, "mode test is not `== 'eq_ineq'`")
-        return
-    branches = {lit: mi.body, ("ineq_eq" if lit == "eq_ineq" else "eq_ineq"): mi.orelse}
+    region = loop.body[idx[0]:idx[-1] + 1]
+
+    def specialise(stmts, mode):
+        out = []
+        for s_ in stmts:
+            if is_mode_if(s_):
+                out += specialise(s_.body if mode_test(s_.test, mode) else s_.orelse, mode)
+            else:
+                out.append(s_)
+        return out
+    branches = {m: specialise(region, m) for m in ("eq_ineq", "ineq_eq")}
     X, P, Qq = Lin.sym("x"), Lin.sym("p"), Lin.sym("q")
     for mode, body in branches.items():
         A, B = ("P_eq", "P_ineq") if mode == "eq_ineq" else ("P_ineq", "P_eq")
@@ -225,9 +257,11 @@ def _check_routine(ctx, rep, f: Func, level: str):
             apps[unparse(n.func.value)] = unparse(n.args[0])
     want = {"ps": "p_next", "qs": "q_next", "xs": "x_next", "ys": "y_next", "error_values": "error_value"}
     hist = None
+    from ..astutil import dict_items
     for n in own_nodes(f.node):
-        if isinstance(n, ast.Dict):
-            hist = {const(k): unparse(v) for k, v in zip(n.keys, n.values)}
+        di = dict_items(n) if isinstance(n, (ast.Dict, ast.Call)) else None
+        if di and "x" in di:
+            hist = {k: unparse(v) for k, v in di.items()}
     rep.check(apps == want and hist == {"p": "ps", "q": "qs", "x": "xs", "y": "ys", "error_value": "error_values"}, "K4", f, "history",
               "ps/qs/xs/ys receive p', q', x', y'", "history lists receive %s; dict is %s" % (apps, hist), node=loop)
     # the sweep that ends the loop is recorded too: the history appends precede every exit of the iteration
@@ -262,28 +296,49 @@ def _check_stop_helpers(ctx, rep):
     binding, errs = bind_call(calls[0], vh, True)
     bad = [(p, unparse(e)) for p, e in binding.items() if unparse(e) != p]
     rep.check(not errs and not bad, "K3", h, calls[0], "iterates forwarded to like-named parameters", "mismatched: %s %s" % (bad, errs), node=calls[0])
-    tests = [n for n in own_nodes(h.node) if isinstance(n, ast.If)]
-    ok = False
-    why = "no comparison of the value with eps_proj_physical"
-    for t in tests:
-        c = t.test
-        if isinstance(c, ast.Compare) and len(c.ops) == 1:
-            l, r = unparse(c.left), unparse(c.comparators[0])
-            tv = [const(x.value.elts[0]) for x in t.body if isinstance(x, ast.Return) and isinstance(x.value, ast.Tuple)]
-            after = t.orelse
-            if not after:
-                # guard-clause form: the statements following the `if` are the else branch
-                blk = getattr(getattr(t, "_parent", None), "body", [])
-                after = blk[blk.index(t) + 1:] if t in blk else []
-            fv = [const(x.value.elts[0]) for x in after if isinstance(x, ast.Return) and isinstance(x.value, ast.Tuple)]
-            if l == "error_value" and r == "eps_proj_physical":
-                if isinstance(c.ops[0], ast.Lt) and tv == [True] and fv == [False]:
-                    ok = True
-                else:
-                    why = "verdict is `error_value %s eps` -> %s/%s; Birgin-Raydan stops when the value is < eps" % (type(c.ops[0]).__name__, tv, fv)
-            elif l == "eps_proj_physical" and r == "error_value" and isinstance(c.ops[0], ast.Gt) and tv == [True] and fv == [False]:
-                ok = True
-    rep.check(ok, "K3", h, "value < eps_proj_physical", "stops exactly when value < eps", why, node=h.node)
+    # the verdict: per path, the first element of the returned pair and the conditions under which it is returned
+    from ..symsum import cases, returning
+    cs = cases(h)
+    verdicts = []       # (left, op, right): True is returned exactly when `left op right`
+    other = []
+    for c in (returning(cs) if cs else []):
+        v = c.value
+        first = v.elts[0] if isinstance(v, ast.Tuple) and v.elts else None
+        if first is None:
+            continue
+        while isinstance(first, ast.Call) and isinstance(first.func, ast.Name) and first.func.id == "bool" and len(first.args) == 1:
+            first = first.args[0]
+        cmps = [(t, pol, n) for t, pol, n in c.guards if isinstance(n, ast.Compare) and "eps_proj_physical" in t]
+        if isinstance(first, ast.Constant) and first.value in (True, False) and len(cmps) == 1:
+            t, pol, n = cmps[0]
+            # returned constant `first.value` when (n is pol)  ->  True exactly when n is (pol == first.value)
+            verdicts.append((n, pol == first.value))
+        elif isinstance(first, ast.Compare) and len(first.ops) == 1:
+            verdicts.append((first, True))
+        elif isinstance(first, ast.Constant) and first.value is False and not cmps:
+            continue        # the "not yet decidable" early exit (missing iterates)
+        else:
+            other.append(unparse(first))
+    ok, why = False, "no comparison of the value with eps_proj_physical"
+    if other:
+        rep.undecided("K3", h, "value < eps_proj_physical", "verdict `%s` is not a comparison of the value with eps_proj_physical" % other[0])
+    else:
+        good = []
+        for n, sense in verdicts:
+            l, r, o = unparse(n.left), unparse(n.comparators[0]), n.ops[0]
+            # normalise to  value ? eps
+            if l == "eps_proj_physical":
+                l, r = r, l
+                o = {ast.Lt: ast.Gt, ast.Gt: ast.Lt, ast.LtE: ast.GtE, ast.GtE: ast.LtE}.get(type(o), type(o))()
+            if not sense:
+                o = {ast.Lt: ast.GtE, ast.GtE: ast.Lt, ast.Gt: ast.LtE, ast.LtE: ast.Gt}.get(type(o), type(None))()
+            if l in ("error_value", unparse(calls[0])) and r == "eps_proj_physical" and isinstance(o, ast.Lt):
+                good.append(True)
+            else:
+                good.append(False)
+                why = "the verdict is True when `%s %s %s`; Birgin-Raydan stops when the value is < eps" % (l[:60], type(o).__name__, r)
+        ok = bool(good) and all(good)
+        rep.check(ok, "K3", h, "value < eps_proj_physical", "stops exactly when value < eps", why, node=h.node)
     # the value itself
     r = returns(vh)
     e = inline(vh, r[0].value) if r else None
@@ -322,7 +377,8 @@ def _check_stop_helpers(ctx, rep):
     hq = ix.func(Q + "_is_satisfied_stopping_criterion_birgin_raydan_qoperations")
     calls = [n for n in own_nodes(hq.node) if isinstance(n, ast.Call) and "_is_satisfied_stopping_criterion_birgin_raydan_vectors" in (dotted(n.func) or "")]
     if len(calls) == 1:
-        binding, errs = bind_call(calls[0], h, True)
+        from ..astutil import expand_star_args
+        binding, errs = bind_call(expand_star_args(hq, calls[0]), h, True)
         bad = [(p, unparse(e)) for p, e in binding.items()
                if unparse(e) not in (p, p + ".to_stacked_vector()")]
         rep.check(not errs and not bad, "K3", hq, calls[0], "object iterates -> stacked vectors, like-named", "mismatched: %s %s" % (bad, errs), node=calls[0])
